@@ -96,8 +96,17 @@ func c05Case(c *lib.Ctx, idx uint64) {
 		return
 	}
 	if err != nil {
+		if lib.HasOverlong(pre) {
+			// a string or array that cannot travel in full: refusing it is not judged here, only
+			// what is written when Encode accepts it
+			c.Count("files_with_overlong_values_refused_by_encode", 1)
+			return
+		}
 		c.Violation(nil, "Encode failed on an in-domain File (type %d): %v", ft, err)
 		return
+	}
+	if lib.HasOverlong(pre) {
+		c.Count("files_with_overlong_values_encoded", 1)
 	}
 	parsed, perr := ref.Parse(out, ref.ParseOptions{Strict: true})
 	if perr != nil {
